@@ -81,12 +81,12 @@ func RunC11(prop string, tr *Trace, sc *Script, rec *Recorder, scratch string) (
 	if err != nil {
 		return &Violation{Oracle: "harness", Detail: "deploy mock: " + err.Error()}
 	}
-	backend.Commit()
+	commitAll(backend, cl, 1)
 	gerAddr, _, ger, err := polygonzkevmglobalexitrootv2.DeployPolygonzkevmglobalexitrootv2(auth, cl, rmAddr, auth.From)
 	if err != nil || gerAddr != gerPre {
 		return &Violation{Oracle: "harness", Detail: fmt.Sprintf("deploy ger: %v (%s vs %s)", err, gerAddr, gerPre)}
 	}
-	backend.Commit()
+	commitAll(backend, cl, 1)
 	appender, err := l1infotreesync.VerifBuildAppender(cl, gerAddr, rmAddr)
 	if err != nil {
 		return &Violation{Oracle: "harness", Detail: "appender: " + err.Error()}
@@ -300,7 +300,7 @@ func RunC11(prop string, tr *Trace, sc *Script, rec *Recorder, scratch string) (
 		}
 		if len(pendingExp) >= 10 && (op.K == "mer" || op.K == "vb") {
 			// the transaction pool keeps a bounded number of pending transactions per account
-			backend.Commit()
+			commitAll(backend, cl, len(pendingExp))
 			if v := syncBlocks(); v != nil {
 				return v
 			}
@@ -366,7 +366,7 @@ func RunC11(prop string, tr *Trace, sc *Script, rec *Recorder, scratch string) (
 			rec.Stats.Inc("verify_batches")
 			rec.Step("V")
 		case "commit":
-			backend.Commit()
+			commitAll(backend, cl, len(pendingExp))
 			if v := syncBlocks(); v != nil {
 				return v
 			}
@@ -381,7 +381,7 @@ func RunC11(prop string, tr *Trace, sc *Script, rec *Recorder, scratch string) (
 		}
 		rec.State(fmt.Sprintf("%d:%d:%d", len(model.Leaves), len(model.VBs), lastSynced))
 	}
-	backend.Commit()
+	commitAll(backend, cl, len(pendingExp))
 	return syncBlocks()
 }
 
